@@ -154,6 +154,28 @@ def run_selectors(ctx, path, raw, label):
                         ctx.fail(case, {"got": got, "outcome": out, "expected": exp}, None)
                 elif s >= n and out != "IndexError":
                     ctx.fail(case, {"outcome": out, "expected": "IndexError"}, None)
+    # keyword variants of the table getters (oracle only): integer chromosome codes, dict output
+    nb = len(raw["bins"]["start"])
+    for a, b_ in [(0, nb), (1, nb), (nb // 2, nb - 1 if nb > 1 else nb), (-2, None), (None, 1)]:
+        lo_, hi_, _ = slice(a, b_).indices(nb)
+        if lo_ > hi_:
+            continue
+        case = {"cooler": label, "table": "bins", "kwargs": "convert_enum=False / as_dict=True", "start": a, "stop": b_}
+        ctx.case(case, nontrivial=hi_ > lo_, kind="selector:kwargs")
+        try:
+            g1 = clr.bins(convert_enum=False)[a:b_]
+            ok = g1.index.tolist() == list(range(lo_, hi_)) and [int(x) for x in g1["chrom"].tolist()] == raw["bins"]["chrom"][lo_:hi_] \
+                and g1["end"].tolist() == raw["bins"]["end"][lo_:hi_]
+            g2 = clr.bins(as_dict=True)[a:b_]
+            ok = ok and isinstance(g2, dict) and [int(x) for x in g2["start"]] == raw["bins"]["start"][lo_:hi_] \
+                and [int(x) for x in g2["extra"]] == raw["bins"]["extra"][lo_:hi_]
+            g3 = clr.chroms(as_dict=True)[:]
+            ok = ok and [int(x) for x in g3["length"]] == raw["chroms"]["length"]
+        except Exception as e:
+            ok = False
+            g1 = repr(e)
+        if not ok:
+            ctx.fail(case, {"got": str(g1)[:400]}, None)
     if exprs:
         model = C.coq_eval("From Cooler Require Import Model.Table.", exprs, tmpdir=ctx.tmp / f"sel_{label}")
         for (case, im), mo in zip(pending, model):
@@ -175,8 +197,10 @@ def run_annotate(ctx, path, raw, label):
         if stored:
             sels.append([rng.choice(stored) for _ in range(size)])
     exprs, pending = [], []
-    for px in sels:
-        pdf = pd.DataFrame({"bin1_id": np.array([p[1] for p in px], dtype=np.int64), "bin2_id": np.array([p[2] for p in px], dtype=np.int64),
+    id_dtypes = [np.int64, np.int32, np.uint32, np.uint16, np.int64]
+    for si, px in enumerate(sels):
+        idt = id_dtypes[si % len(id_dtypes)]      # pixel tables store ids as int64; frames built by users may not
+        pdf = pd.DataFrame({"bin1_id": np.array([p[1] for p in px], dtype=idt), "bin2_id": np.array([p[2] for p in px], dtype=idt),
                             "count": np.array([p[3] for p in px], dtype=np.int64)}, index=np.array([p[0] for p in px], dtype=np.int64))
         need = [p[1] for p in px] + [p[2] for p in px]
         views = [("frame", 0, nb, allbins), ("selector", 0, nb, clr.bins()), ("selector-cols", 0, nb, clr.bins()[["chrom", "start", "end"]])]
